@@ -56,6 +56,7 @@ theorem ErrExt.mods {T a a'} (h : ErrExt T a a') : a'.mods = a.mods := by obtain
 theorem ErrExt.buf {T a a'} (h : ErrExt T a a') : a'.buf = a.buf := by obtain ⟨_, e, _⟩ := h; subst e; rfl
 theorem ErrExt.fail {T a a'} (h : ErrExt T a a') : a'.fail = a.fail := by obtain ⟨_, e, _⟩ := h; subst e; rfl
 theorem ErrExt.w {T a a'} (h : ErrExt T a a') : a'.w = a.w := by obtain ⟨_, e, _⟩ := h; subst e; rfl
+theorem ErrExt.wAny {T a a'} (h : ErrExt T a a') : a'.wAny = a.wAny := by obtain ⟨_, e, _⟩ := h; subst e; rfl
 theorem ErrExt.nAccepted {T a a'} (h : ErrExt T a a') : a'.nAccepted = a.nAccepted := by
   obtain ⟨_, e, _⟩ := h; subst e; rfl
 
@@ -99,6 +100,18 @@ theorem checkDepartures_ext (cfg : Cfg) (a : A) (md : Option Nat) (evs : List Ev
     · exact ErrExt.refl _ _
     · exact errExt_chk _ _ _ _ _ (by simp)) _ _)
   exact h6.foldl _ _ (fun x y => errExt_foldl _ _ (fun x' y' => errExt_chk _ _ _ _ _ (by simp)) _ _)
+
+/-- from the state with the second writable set installed back to the state itself -/
+theorem errExt_any {T : List String} {a D : A} {v : List Nat} (h : ErrExt T ({ a with wAny := v } : A) D) :
+    ErrExt T a ({ D with wAny := a.wAny } : A) := by
+  obtain ⟨new, e, t⟩ := h
+  exact ⟨new, by rw [e], t⟩
+
+theorem checkDeparturesAny_ext (cfg : Cfg) (a : A) (o : Option (List Nat)) (md : Option Nat) (evs : List Ev) :
+    ErrExt ["C07", "C14"] a (checkDeparturesAny cfg a o md evs) := by
+  cases o with
+  | none => exact checkDepartures_ext cfg a md evs
+  | some v => exact errExt_any (checkDepartures_ext cfg _ md evs)
 
 theorem checkAcks_ext (cfg : Cfg) (a : A) (u : Nat) (expect : Bool) (evs : List Ev) :
     ErrExt ["C19"] a (checkAcks cfg a u expect evs) := by
@@ -379,7 +392,7 @@ def kill (m : AMod) : AMod := { m with alive := false, connected := false }
 
 def killIn (l : List Nat) (m : AMod) : AMod := if l.contains m.uid then kill m else m
 
-theorem applyDepartures_eq (a : A) (evs : List Ev) :
+theorem applyDepartures_map (a : A) (evs : List Ev) :
     applyDepartures a evs = { a with mods := a.mods.map (killIn (closes evs)) } := by
   unfold applyDepartures
   generalize closes evs = l
@@ -408,11 +421,11 @@ theorem applyDepartures_eq (a : A) (evs : List Ev) :
 theorem applyDepartures_core (a : A) (evs : List Ev) :
     (applyDepartures a evs).buf = a.buf ∧ (applyDepartures a evs).fail = a.fail ∧ (applyDepartures a evs).w = a.w ∧
     (applyDepartures a evs).nAccepted = a.nAccepted ∧ (applyDepartures a evs).errs = a.errs := by
-  rw [applyDepartures_eq]; exact ⟨rfl, rfl, rfl, rfl, rfl⟩
+  rw [applyDepartures_map]; exact ⟨rfl, rfl, rfl, rfl, rfl⟩
 
 theorem applyDepartures_uids (a : A) (evs : List Ev) :
     (applyDepartures a evs).mods.map (·.uid) = a.mods.map (·.uid) := by
-  rw [applyDepartures_eq]
+  rw [applyDepartures_map]
   simp only [List.map_map]
   apply List.map_congr_left
   intro m _
@@ -421,7 +434,7 @@ theorem applyDepartures_uids (a : A) (evs : List Ev) :
 
 theorem applyDepartures_get (a : A) (evs : List Ev) (v : Nat) :
     (applyDepartures a evs).get v = (a.get v).map (killIn (closes evs)) := by
-  rw [applyDepartures_eq]
+  rw [applyDepartures_map]
   unfold A.get
   exact aget_map _ _ (by intro m; unfold killIn; split <;> rfl) v
 
@@ -462,7 +475,7 @@ theorem applyDepartures_live (a : A) (evs : List Ev) (v : Nat) :
 /-- `applyDepartures` commutes with error extensions -/
 theorem applyDepartures_coreExt {T : List String} {a a' : A} (h : CoreExt T a a') (evs : List Ev) :
     CoreExt T (applyDepartures a evs) (applyDepartures a' evs) := by
-  rw [applyDepartures_eq, applyDepartures_eq]
+  rw [applyDepartures_map, applyDepartures_map]
   exact ⟨by simp [h.mods], h.buf, h.fail, h.w, h.nAccepted, h.errs⟩
 
 
@@ -586,7 +599,7 @@ theorem segment_broken (cfg : Cfg) (a : A) (rd : Read) (evs : List Ev) (m : AMod
   · rw [afterBuf_eq]; exact errExt_chk _ _ _ _ _ (by simp)
 
 /-- the abstract meaning of SUBSCRIBE / RESUME (`add`) and UNSUBSCRIBE / PAUSE of type `ty` -/
-def subUpd (cfg : Cfg) (ty : Int) (add : Bool) (m : AMod) : AMod :=
+def subUpdA (cfg : Cfg) (ty : Int) (add : Bool) (m : AMod) : AMod :=
   if ty == cfg.allTypes then (if add then { m with subAll := true, types := [] } else { m with subAll := false, types := [] })
   else if m.subAll then m
   else if add then { m with types := if m.types.contains ty then m.types else m.types ++ [ty] }
@@ -639,7 +652,7 @@ theorem segment_sub
             rd.h.mtype == cfg.mtPause) = true) :
     segment cfg a rd evs =
       applyDepartures (checkDepartures cfg (checkAcks cfg
-        ((afterBuf cfg a rd).upd rd.uid (subUpd cfg (bufI32 (afterBuf cfg a rd).buf 0)
+        ((afterBuf cfg a rd).upd rd.uid (subUpdA cfg (bufI32 (afterBuf cfg a rd).buf 0)
           (rd.h.mtype == cfg.mtSubscribe || rd.h.mtype == cfg.mtResume))) rd.uid true evs) none evs) evs := by
   unfold segment
   unfold brokenRd at hb
@@ -876,6 +889,98 @@ theorem checkData_c01 (cfg : Cfg) (a : A) (h : Hdr) (evs : List Ev)
       have : a5 = List.foldl _ a4 observers := rfl
       rw [this, e4]
       exact errExt_foldl _ _ (fun x y => errExt_foldl _ _ (fun x' y' => errExt_chk _ _ _ _ _ (by simp)) _ _) _ _
+
+/-! ## `checkData`: all its clauses -/
+
+/-- a module that subscribes to one of the manager's own notices (CLIENT_CLOSED, FAILED_MESSAGE, RTMA_LOG*) or to everything -/
+def hearsNotices (cfg : Cfg) (m : AMod) : Bool := m.subAll || m.types.any (fun ty => ty == cfg.mtClosed || inGuard cfg ty)
+
+/-- the subscribers the published frame cannot be handed to -/
+def dundeliv (cfg : Cfg) (a : A) (h : Hdr) : List AMod :=
+  (a.mods.filter (fun m => m.alive && subscribed m h.mtype)).filter (fun m => (h.dest == 0 || m.modId == h.dest) &&
+      ((!m.isLogger && !a.w.contains m.uid) || (ready a m && a.failing m.uid && !hearsNotices cfg m)))
+
+/-- who must hear about it -/
+def dobservers (cfg : Cfg) (a : A) : List AMod :=
+  a.mods.filter (fun m => m.alive && subscribed m cfg.mtFailed && ready a m && !a.failing m.uid)
+
+theorem checkData_ok (cfg : Cfg) (a : A) (h : Hdr) (evs : List Ev)
+    (c1 : (dcopies evs).length = (dmine h.k evs).length)
+    (c2 : ∀ p ∈ dmine h.k evs, p.2.2.mtype = h.mtype ∧ p.2.2.src = h.src ∧ p.2.2.dest = h.dest ∧
+      p.2.2.destHost = h.destHost ∧ (p.2.2.nbytes : Int) = h.nbytes)
+    (c3 : h.mtype ≠ cfg.allTypes → ∀ m ∈ dexpected cfg a h, ((dmine h.k evs).filter (·.1 == m.uid)).length = 1)
+    (c4 : h.mtype ≠ cfg.allTypes → ∀ p ∈ dmine h.k evs, (dexpected cfg a h).any (·.uid == p.1) = true)
+    (c5 : h.mtype ≠ cfg.allTypes → inRangeH cfg h = true → inGuard cfg h.mtype = false →
+      ∀ o ∈ dobservers cfg a, ∀ m ∈ dundeliv cfg a h,
+        ((dundeliv cfg a h).filter (·.modId == m.modId)).length ≤
+          ((sends evs).filter (fun p => p.1 == o.uid && p.2.2.body == .failed m.modId h.mtype h.src h.dest)).length) :
+    checkData cfg a h evs = a := by
+  unfold checkData
+  extract_lets t inRange copies mine a1 a2 subs expected a3 a4 hears undeliv observers a5
+  have hcop : copies = dcopies evs := rfl
+  have hmine : mine = dmine h.k evs := rfl
+  have e1 : a1 = a := by
+    show a.chk _ _ _ = a
+    exact chk_of _ _ _ _ (by rw [hcop, hmine, c1]; exact beq_self_eq_true _)
+  have e2 : a2 = a := by
+    show a1.chk _ _ _ = a
+    rw [e1]
+    refine chk_of _ _ _ _ ?_
+    rw [List.all_eq_true]
+    intro p hp
+    obtain ⟨q1, q2, q3, q4, q5⟩ := c2 p (by rw [← hmine]; exact hp)
+    simp [t, q1, q2, q3, q4, q5]
+  split
+  · exact e2
+  · rename_i hta
+    have hta' : h.mtype ≠ cfg.allTypes := by simpa [t] using hta
+    have hexp : expected = dexpected cfg a h := by
+      show (if inRange = true then _ else []) = _
+      unfold dexpected
+      have : inRange = inRangeH cfg h := rfl
+      rw [this]
+      split
+      · show List.filter _ (List.filter _ a2.mods) = _
+        rw [e2]
+      · rfl
+    have e3 : a3 = a := by
+      show List.foldl _ a2 expected = a
+      rw [e2]
+      apply foldl_fix
+      intro m hm
+      refine chk_of _ _ _ _ ?_
+      have := c3 hta' m (by rw [← hexp]; exact hm)
+      rw [hmine, this]; rfl
+    have e4 : a4 = a := by
+      show List.foldl _ a3 mine = a
+      rw [e3]
+      apply foldl_fix
+      intro p hp
+      refine chk_of _ _ _ _ ?_
+      rw [hexp]
+      exact c4 hta' p (by rw [← hmine]; exact hp)
+    split
+    · exact e4
+    · rename_i hgd
+      have hgd' : inRangeH cfg h = true ∧ inGuard cfg h.mtype = false := by
+        have : inRange = inRangeH cfg h := rfl
+        rw [← this]
+        simpa [t] using hgd
+      have hund : undeliv = dundeliv cfg a h := by
+        show List.filter _ (List.filter _ a2.mods) = _
+        rw [e2, e4]; rfl
+      have hobs : observers = dobservers cfg a := by
+        show List.filter _ a4.mods = _
+        rw [e4]; rfl
+      show List.foldl _ a4 observers = a
+      rw [e4]
+      apply foldl_fix
+      intro o ho
+      apply foldl_fix
+      intro m hm
+      refine chk_of _ _ _ _ ?_
+      rw [hund]
+      exact decide_eq_true (c5 hta' hgd'.1 hgd'.2 o (by rw [← hobs]; exact ho) m (by rw [← hund]; exact hm))
 
 /-! ## `checkConnect`: the C06 clauses pass when the decision is the one the property demands -/
 
